@@ -37,6 +37,7 @@ def main(tier):
     chk.run("R-RENDERINT", B.renderint, r, floor=100)
     chk.run("R-ENUMCASE", B.enumcase, r, floor=2)
     chk.run("R-NSPARSE", B.nsparse, r, floor=1)
+    chk.run("R-DEPORDER", B.deporder, r, clauses=("decl",), floor=3)
     chk.run("R-SLOTAGREE", B.slotagree, r, floor=20)
     chk.run("R-HEADERGUARD", B.headerguard, r, floor=1)
     chk.run("R-PACKFORWARD", WN.packforward, cx.cpp, floor=3)
